@@ -28,6 +28,9 @@ C13 == (ev.ev = "resolve" /\ ev.judged) =>
 \* history independence: resolving the same text before and after other files were resolved in
 \* the same process gives the same result (nothing leaks through shared tables)
 C13Hist == ev.ev = "hist" => (ev.a = ev.b \/ Rep("resolving a file gives another result after an unrelated file was resolved in the same process", [before |-> ev.a, after |-> ev.b]))
+\* expectations computed from other real runs (a default variable with and without an append, a profile alone
+\* and next to others): the two must agree
+C13Expect == ev.ev = "expect" => (ev.want = ev.got \/ Rep(ev.what, [want |-> ev.want, got |-> ev.got]))
 \* C06: the built attachment / the generated exec rules match exactly what @{exec_path} matches
 \* (witness paths computed by the AARE matcher over the shipped tunables)
 RepP(p, what, d) == PrintT("VIOL " \o ToJson([p |-> p, id |-> ev.id, what |-> what, d |-> d]))
